@@ -776,6 +776,18 @@ fn nested_headers(depth: usize, short_int_first: bool, res: &mut CaseResult) {
     nested_table(depth, short_int_first, 0, res)
 }
 
+/// (class, method, name) and the layout in front of the arguments table, from the 0-9-1 XML.
+const CLIENT_ONLY_WITH_TABLE: [(u8, u8, usize, usize, usize); 8] = [
+    (50, 10, 2, 1, 1), // Queue.Declare
+    (10, 11, 0, 0, 0), // Connection.StartOk
+    (40, 10, 2, 2, 1), // Exchange.Declare
+    (40, 30, 2, 3, 1), // Exchange.Bind
+    (40, 40, 2, 3, 1), // Exchange.Unbind
+    (50, 20, 2, 3, 1), // Queue.Bind
+    (50, 50, 2, 3, 0), // Queue.Unbind
+    (60, 20, 2, 2, 1), // Basic.Consume
+];
+
 fn nested_table(depth: usize, short_int_first: bool, place: u8, res: &mut CaseResult) {
     let (conn, h) = session::open_default(Reflex::default());
     let mut conn = match conn {
@@ -822,9 +834,17 @@ fn nested_table(depth: usize, short_int_first: bool, place: u8, res: &mut CaseRe
     hp.extend_from_slice(&(if place == 1 { 0x2001u16 } else { 0x2000u16 }).to_be_bytes());
     hp.extend_from_slice(&(table.len() as u32).to_be_bytes());
     hp.extend_from_slice(&table);
-    let mut bytes = if place == 2 {
-        // Queue.Declare: class 50, method 10, ticket, queue name, flag octet, arguments
-        let mut mp: Vec<u8> = vec![0, 50, 0, 10, 0, 0, 1, b'q', 0];
+    let mut bytes = if place >= 2 {
+        // a method only a client may send, with the table as its arguments: class, method,
+        // bytes of ticket, short strings in front of the table, flag octets in front of it
+        let (class, method, ticket, strings, flags) = CLIENT_ONLY_WITH_TABLE[(place - 2) as usize];
+        let mut mp: Vec<u8> = vec![0, class, 0, method];
+        mp.extend(std::iter::repeat(0u8).take(ticket));
+        for k in 0..strings {
+            mp.extend_from_slice(&[1 + k as u8]);
+            mp.extend(std::iter::repeat(b'q').take(1 + k));
+        }
+        mp.extend(std::iter::repeat(0u8).take(flags));
         mp.extend_from_slice(&(table.len() as u32).to_be_bytes());
         mp.extend_from_slice(&table);
         enc_raw(wire::T_METHOD, id, &mp)
@@ -861,8 +881,14 @@ fn nested_table(depth: usize, short_int_first: bool, place: u8, res: &mut CaseRe
 
 pub fn run(rc: &mut RunCtx) {
     let seed = rc.seed;
-    for (depth, short_int_first, place) in [(30usize, false, 0u8), (400, false, 0), (3000, false, 0), (20000, false, 0), (30, true, 0), (20000, true, 0), (20000, false, 1), (8, false, 2), (20000, false, 2)] {
-        let id = format!("nested-headers:{}{}{}", depth, if short_int_first { ":behind-short-int" } else { "" }, ["", ":flags-bit0", ":in-client-only-method"][place as usize]);
+    for (depth, short_int_first, place) in [(30usize, false, 0u8), (400, false, 0), (3000, false, 0), (20000, false, 0), (30, true, 0), (20000, true, 0), (20000, false, 1), (8, false, 2), (20000, false, 2), (20000, false, 3), (20000, false, 4), (20000, false, 5), (20000, false, 6), (20000, false, 7), (20000, false, 8), (20000, false, 9), (8, false, 9)] {
+        let place_name = match place {
+            0 => String::new(),
+            1 => ":flags-bit0".to_string(),
+            2 => ":in-client-only-method".to_string(),
+            n => format!(":in-client-only-method:{}.{}", CLIENT_ONLY_WITH_TABLE[(n - 2) as usize].0, CLIENT_ONLY_WITH_TABLE[(n - 2) as usize].1),
+        };
+        let id = format!("nested-headers:{}{}{}", depth, if short_int_first { ":behind-short-int" } else { "" }, place_name);
         if !rc.mine(&id) {
             continue;
         }
